@@ -3,7 +3,13 @@
  * flags: a stream opened "r" cannot be written, one opened "a" or "w" cannot be read (C11 7.21.5.3), "w+" creates or
  * truncates. rename() is atomic. Every call that can change the disk is counted; when the counter reaches
  * memfs_crash_at the process "dies": the disk is frozen from then on (later calls still return success to the caller,
- * but change nothing), which is how the state found after a restart is obtained in the same run. */
+ * but change nothing), which is how the state found after a restart is obtained in the same run.
+ * Two write models (both are behaviours ISO C allows; a job picks one):
+ *   default        : every fwrite/fprintf reaches the disk at once (an unbuffered stream; crash points between single writes)
+ *   MEMFS_BUFFERED : written data stays in the stream (a private image of the file) and reaches the disk only with
+ *                    fflush()/fclose() (a fully buffered stream whose buffer is never flushed early); a crash loses it.
+ *                    open(O_TRUNC), rename and remove are system calls and act at once; the stream follows the file across a
+ *                    rename (it refers to the inode, not the name). */
 #include <stdio.h>
 #include <string.h>
 #include <stdarg.h>
@@ -13,7 +19,11 @@
 memfs_file_t memfs_files[MEMFS_NFILES];
 int memfs_ops, memfs_crash_at = -1, memfs_frozen;
 
+#ifdef MEMFS_BUFFERED
+typedef struct { int used, file, can_read, can_write; size_t pos; int dirty; size_t len; uint8_t data[MEMFS_CAP]; } mstream_t;
+#else
 typedef struct { int used, file, can_read, can_write; size_t pos; } mstream_t;
+#endif
 static mstream_t streams[4];
 /* FILE is opaque to the code under test; a stream handle is a pointer into this array */
 static FILE *handle(int i) { return (FILE *)(void *)&streams[i]; }
@@ -26,6 +36,31 @@ mutating(void) {
   memfs_ops++;
   return !memfs_frozen;
 }
+
+#ifdef MEMFS_BUFFERED
+static void
+load(mstream_t *st) {
+  size_t i;
+  st->len = memfs_files[st->file].len;
+  for (i = 0; i < MEMFS_CAP; i++) st->data[i] = memfs_files[st->file].data[i];
+  st->dirty = 0;
+}
+static void
+commit(mstream_t *st) {
+  size_t i;
+  if (!st->dirty) return;
+  if (mutating()) {
+    memfs_files[st->file].len = st->len;
+    for (i = 0; i < MEMFS_CAP; i++) memfs_files[st->file].data[i] = st->data[i];
+  }
+  st->dirty = 0;
+}
+#define F_LEN(st) ((st)->len)
+#define F_DATA(st) ((st)->data)
+#else
+#define F_LEN(st) (memfs_files[(st)->file].len)
+#define F_DATA(st) (memfs_files[(st)->file].data)
+#endif
 
 static int
 find(const char *name, int create) {
@@ -59,15 +94,24 @@ fopen(const char *path, const char *mode) {
     f = find(path, 0);
     if (f < 0) return NULL;
     streams[s] = (mstream_t){1, f, 1, mode[1] == '+', 0};
+#ifdef MEMFS_BUFFERED
+    load(&streams[s]);
+#endif
   } else if (mode[0] == 'w') {
     if (mutating()) { f = find(path, 1); if (f >= 0) memfs_files[f].len = 0; }
     else f = find(path, 0);
     if (f < 0) f = MEMFS_NFILES - 1;          /* dead process: handle on a scratch slot nobody reads */
     streams[s] = (mstream_t){1, f, mode[1] == '+', 1, 0};
+#ifdef MEMFS_BUFFERED
+    streams[s].len = 0; streams[s].dirty = 0;
+#endif
   } else { /* "a": create if missing, write-only, positioned at the end */
     f = find(path, 0);
     if (f < 0) { if (mutating()) f = find(path, 1); if (f < 0) f = MEMFS_NFILES - 1; }
     streams[s] = (mstream_t){1, f, mode[1] == '+', 1, memfs_files[f].len};
+#ifdef MEMFS_BUFFERED
+    load(&streams[s]);
+#endif
   }
   return handle(s);
 }
@@ -77,8 +121,8 @@ fread(void *ptr, size_t size, size_t nmemb, FILE *fp) {
   mstream_t *st = stream(fp);
   size_t want = size * nmemb;
   if (!st->can_read) return 0;
-  if (want == 0 || st->pos + want > memfs_files[st->file].len) { st->pos = memfs_files[st->file].len; return 0; }
-  memcpy(ptr, memfs_files[st->file].data + st->pos, want);
+  if (want == 0 || st->pos + want > F_LEN(st)) { st->pos = F_LEN(st); return 0; }
+  memcpy(ptr, F_DATA(st) + st->pos, want);
   st->pos += want;
   return nmemb;
 }
@@ -88,12 +132,20 @@ fwrite(const void *ptr, size_t size, size_t nmemb, FILE *fp) {
   mstream_t *st = stream(fp);
   size_t want = size * nmemb;
   if (!st->can_write) return 0;
+#ifdef MEMFS_BUFFERED
+  if (st->pos + want > MEMFS_CAP) return 0;
+  memcpy(st->data + st->pos, ptr, want);
+  st->pos += want;
+  if (st->pos > st->len) st->len = st->pos;
+  st->dirty = 1;
+#else
   if (mutating()) {
     if (st->pos + want > MEMFS_CAP) return 0;
     memcpy(memfs_files[st->file].data + st->pos, ptr, want);
     st->pos += want;
     if (st->pos > memfs_files[st->file].len) memfs_files[st->file].len = st->pos;
   }
+#endif
   return nmemb;
 }
 
@@ -101,9 +153,9 @@ char *
 fgets(char *s, int n, FILE *fp) {
   mstream_t *st = stream(fp);
   int k = 0;
-  if (!st->can_read || st->pos >= memfs_files[st->file].len) return NULL;
-  while (k < n - 1 && st->pos < memfs_files[st->file].len) {
-    char c = (char)memfs_files[st->file].data[st->pos++];
+  if (!st->can_read || st->pos >= F_LEN(st)) return NULL;
+  while (k < n - 1 && st->pos < F_LEN(st)) {
+    char c = (char)F_DATA(st)[st->pos++];
     s[k++] = c;
     if (c == '\n') break;
   }
@@ -127,6 +179,16 @@ fprintf(FILE *fp, const char *fmt, ...) {
   va_end(ap);
   if (!st->can_write) return -1;
   do { digits[nd++] = (char)('0' + v % 10); v /= 10; } while (v && nd < 10);
+#ifdef MEMFS_BUFFERED
+  {
+    for (i = 0; str[i] && st->pos < MEMFS_CAP; i++) st->data[st->pos++] = (uint8_t)str[i];
+    if (st->pos < MEMFS_CAP) st->data[st->pos++] = ' ';
+    for (i = nd - 1; i >= 0 && st->pos < MEMFS_CAP; i--) st->data[st->pos++] = (uint8_t)digits[i];
+    if (st->pos < MEMFS_CAP) st->data[st->pos++] = '\n';
+    if (st->pos > st->len) st->len = st->pos;
+    st->dirty = 1;
+  }
+#else
   if (mutating()) {
     memfs_file_t *f = &memfs_files[st->file];
     for (i = 0; str[i] && st->pos < MEMFS_CAP; i++) f->data[st->pos++] = (uint8_t)str[i];
@@ -135,12 +197,18 @@ fprintf(FILE *fp, const char *fmt, ...) {
     if (st->pos < MEMFS_CAP) f->data[st->pos++] = '\n';
     if (st->pos > f->len) f->len = st->pos;
   }
+#endif
   total = nd + 2;
   return total;
 }
 
+#ifdef MEMFS_BUFFERED
+int fflush(FILE *fp) { if (stream(fp)->can_write) commit(stream(fp)); return 0; }
+int fclose(FILE *fp) { if (stream(fp)->can_write) commit(stream(fp)); stream(fp)->used = 0; return 0; }
+#else
 int fflush(FILE *fp) { (void)fp; return 0; }
 int fclose(FILE *fp) { stream(fp)->used = 0; return 0; }
+#endif
 
 int
 rename(const char *oldp, const char *newp) {
